@@ -514,7 +514,6 @@ pub fn world(rng: &mut Rng, stakes: &[u64], own: u64, with_waits: bool, with_old
             groups.push(vec![Op::Vote { slot: s, kind: k, hash: h, signer: rng.below(n) }]);
         }
     }
-    let _ = own;
     rng.shuffle(&mut groups);
     // adversarial arrival orders on top of the uniform shuffle: (a) every skip certificate / skip vote first,
     // then everything else from the highest slot down (old blocks are certified AFTER the windows behind them
@@ -532,7 +531,19 @@ pub fn world(rng: &mut Rng, stakes: &[u64], own: u64, with_waits: bool, with_old
         ops.extend(g);
         if standstill && rng.chance(1, 5) { ops.push(Op::Standstill); }
     }
-    if standstill { ops.push(Op::Standstill); }
+    if standstill {
+        // a third of the recovery histories: the node's OWN notar-fallback votes for two competing blocks of one slot
+        // beyond the chain (both became safe-to-notar after it skipped the slot) - the bundle must carry both.
+        // Drawn from a forked generator so that the rest of the history does not depend on this addition.
+        let mut r2 = Rng::new(0xC18F_0000 ^ (nslots << 8) ^ stakes.iter().fold(0u64, |a, x| a.wrapping_mul(31).wrapping_add(*x)) ^ ((ops.len() as u64) << 24));
+        if r2.chance(1, 3) {
+            let s = nslots + 1 + r2.below(2);
+            ops.push(Op::Vote { slot: s, kind: VK::NotarFb, hash: s * 10 + 8, signer: own });
+            if r2.chance(1, 2) { ops.push(Op::Standstill); }
+            ops.push(Op::Vote { slot: s, kind: VK::NotarFb, hash: s * 10 + 9, signer: own });
+        }
+        ops.push(Op::Standstill);
+    }
     World { ops, max_slot: nslots }
 }
 const SPW: u64 = pool::SLOTS_PER_WINDOW;
